@@ -40,3 +40,20 @@ Example C20_runs :
   (map (torowmajor [2;3;4] (fun p => p)) (seq 0 24), map (tocolumnmajor [2;3] (fun p => p)) (seq 0 7))
   = ([0;12;4;16;8;20;1;13;5;17;9;21;2;14;6;18;10;22;3;15;7;19;11;23], [0;2;4;1;3;5;6]).
 Proof. vm_compute. reflexivity. Qed.
+
+(** * Tie to the source (translator): tensor/TensorFunctions.h and TensorMap.h as translated on every run.
+    Rank 2: tocolumnmajor writes arr_out[index] = a_data[counter] and torowmajor arr_out[counter] = a_data[index]
+    with counter = j*M + i and index = rm_of_counter [M;N] counter = i*N + j - the offsets of the model.  Higher
+    ranks: only the odometer loop of the model is accepted, the destination is addressed by `index` in
+    tocolumnmajor and the source in torowmajor.  squeeze / reshape / flatten return maps over a.data();
+    TensorMap::is_aligned() is false. *)
+From FastorV Require Import Gen.GeneratedAccess Proofs.GenLayoutEq.
+Theorem C20_source_layout_conversions :
+  (forall M N i j, i < M -> j < N ->
+     gen_tocolumnmajor_2d M N i j = (rm_of_counter [M; N] (j * M + i), j * M + i) /\
+     gen_torowmajor_2d M N i j = (j * M + i, rm_of_counter [M; N] (j * M + i))) /\
+  (forall M N i j, gen_torowmajor_2d M N i j = (snd (gen_tocolumnmajor_2d M N i j), fst (gen_tocolumnmajor_2d M N i j))) /\
+  gen_layout_general = [(true, false); (false, true)] /\
+  gen_map_functions = [true; true; true; true].
+Proof. exact (conj gen_layout_2d_eq (conj gen_layout_2d_inverse (conj gen_layout_general_eq gen_map_functions_eq))). Qed.
+Print Assumptions C20_source_layout_conversions.
